@@ -368,6 +368,9 @@ func (c *client) Increment(i *hrpc.Mutate) (int64, error) {
 			len(r.Cells))
 	}
 
+	if v := r.Cells[0].Value; len(v) != 8 {
+		return 0, fmt.Errorf("increment returned a value of %d bytes, but we expected 8", len(v))
+	}
 	val := binary.BigEndian.Uint64(r.Cells[0].Value)
 	return int64(val), nil
 }
